@@ -379,7 +379,7 @@ HARNESSES = [
        'declaration programs: every history of <=3 calls from the 26-op alphabet of C01 (thorough: <=2 from the 183-op alphabet); trace = '
        'provided/implemented sets of every object and class plus the name sequence of every __sro__ after each step'),
     _h('d_reg', make_reg, dict(L=1), dict(L=2),
-       'registry programs on a 2-registry chain of either flavour: every history of <=1 (thorough 2) mutations from 53 (registrations, '
+       'registry programs on a 2-registry chain of either flavour: every history of <=1 (thorough 2) mutations from 55 (registrations, rebuild(), '
        'subscriptions, registry/interface __bases__, declarations); trace = every entry point for every key (arity 0-2, defaults, objects) '
        'from both registries before and after each step'),
     _h('d_cmp', make_cmp, dict(names=4, mods=3), dict(names=7, mods=4),
